@@ -720,6 +720,10 @@ theorem bbij_sweeperAct {b b' : BState} {v : Option Nat} (hb : BInv b) (hi : BBi
   | kwRemoveNone now shard rest id hg hs =>
     exact hi.inPlace (fun k => by simp) (by simp) (by rw [sweepNext_evicting, hs]; rfl) hw
       (fun f _ => Nat.le_of_eq (hocc f)) (Nat.le_of_eq hn.symm)
+  | kwRemoveSkip now shard rest id wk hg hs hu =>
+    -- fix 36c87dc: the stored value has not itself expired — nothing changes but the sweeper's position
+    exact hi.inPlace (fun k => by simp) (by simp) (by rw [sweepNext_evicting, hs]; rfl) hw
+      (fun f _ => Nat.le_of_eq (hocc f)) (Nat.le_of_eq hn.symm)
   | sub now shard rest id wk hfree hs =>
     exact hi.inPlace (fun k => rfl) rfl (by rw [hs]; rfl) hw (fun f _ => Nat.le_of_eq (hocc f)) (Nat.le_of_eq hn.symm)
   | fin hs =>
